@@ -319,6 +319,8 @@ def r3(run, ctx):
                 if isinstance(q_, ast.Constant) and q_.value is None and \
                         (norm_text(p_).endswith('watcher') or norm_text(p_).endswith('.sockets')):
                     return isinstance(e.ops[0], (ast.IsNot, ast.NotEq))
+        if isinstance(e, ast.Attribute) and e.attr in ('use_fds', 'use_sockets'):
+            return True       # the property is about use_sockets watchers
         return None
     from sa.idioms import reach_under
     fetch = ctx.nodes_calling(g, [W + '_get_sockets_fds'])
